@@ -30,13 +30,19 @@ def mk_tree(rng):
          ["dir", H("root/a"), 0o755], ["dir", H("root/a/b"), 0o755], ["file", H("root/a/file"), H("x"), 0o644],
          ["symlink", H("root/l"), H("a/b")], ["symlink", H("root/dangling"), H("nonexistent")], ["symlink", H("root/esc"), H("../outside")],
          ["symlink", H("root/abs"), H("/a")], ["symlink", H("root/a/b/up"), H("../..")], ["fifo", H("root/pipe"), 0o644],
-         ["dir", H("root/sg"), 0o2775], ["symlink", H("root/loop"), H("loop")], ["symlink", H("root/a/dl"), H("../dangling")]]
+         ["dir", H("root/sg"), 0o2775], ["symlink", H("root/loop"), H("loop")], ["symlink", H("root/a/dl"), H("../dangling")],
+         # links inside link bodies: the emulated partial lookup's symlink stack two and three entries deep, failing at different
+         # depths (no theorem covers the stack: these feed T1, T3 and the comparison with the kernel's resolution)
+         ["symlink", H("root/n1"), H("n2/t1")], ["symlink", H("root/n2"), H("a/b")], ["symlink", H("root/m1"), H("a/./b/")],
+         ["symlink", H("root/m2"), H("l/../a/b")], ["symlink", H("root/m3"), H("/abs/b")], ["symlink", H("root/m4"), H("m5/")],
+         ["symlink", H("root/m5"), H("dangling")], ["symlink", H("root/m6"), H("n2/../../m2/./up/a")]]
     return t
 
 
 PATHS = ["x", "x/y/z", "a/b/c", "a/b/c/d/e", "l/new", "l/n1/n2", "abs/b/deep/er", "a/b/up/a/b/q", "a/../a/./b//w", "/a/b/abs1/abs2",
          "a/file/x", "pipe/x", "dangling/x", "dangling", "a/dl/x", "esc/x", "esc", "loop/x", "a/b/../../n", "x/../y", "new/../other", "x/y/../z",
-         "a/b", "a", "", ".", "/", "..", "../x", "sg/g1/g2", "a/b/c/", "a/b//c//", "x/./y", "a/b/up/q", "l/../viaL", "k (deleted)/m"]
+         "a/b", "a", "", ".", "/", "..", "../x", "sg/g1/g2", "a/b/c/", "a/b//c//", "x/./y", "a/b/up/q", "l/../viaL", "k (deleted)/m",
+         "n1/x/y", "n1", "n2/t1/t2", "m1/new/q", "m2/k1/k2", "m3/z", "m3/../z2", "m4/x", "m4", "m6/w1/w2", "m6/b/w3", "m2/up/m1/w4"]
 
 
 MODES = [0o755, 0o700, 0o1777, 0o750, 0o555, 0o500, 0o070, 0o1055, 0o000, 0o444, 0o711, 0o007]
